@@ -508,12 +508,36 @@ Definition list_keys : prog (res (list (N * Z))) :=
 (** * C17: handles sharing one storage, one back-end call per step *)
 Inductive lockst := LFree | LExcl (i : nat) | LShared (holders : list nat).
 
+(** what a handle (one process / one keystore object) runs: operations on the key ring object it
+    holds, OpenKeyRingRW (which CREATES a missing ring), and the key store entry points that open
+    the ring themselves (generate/import = open+AddKey+SetCurrent, destroy current) *)
+Inductive hop :=
+| HRing (o : wop)             (* AddKey/SetCurrent/SetState/DestroyKey on the handle's key ring object *)
+| HOpen (rid : N)             (* object := OpenKeyRingRW rid *)
+| HGen (rid ord : N)          (* gen_key *)
+| HDestroyCur (rid : N).      (* destroy_current *)
+
+(** the program of one operation; the key ring object afterwards ([None] = no object yet) *)
+Definition hop_prog (hr : option hring) (o : hop) : prog (res Z * option hring) :=
+  match o with
+  | HRing w =>
+      match hr with
+      | Some h => exe r <- ring_op h w; Done (fst r, Some (snd r))
+      | None => Done (Err E_GENERIC, None)
+      end
+  | HOpen rid =>
+      exe r <- open_key_ring_rw rid;
+      Done (match fst r with Ok _ => (Ok 0, Some (snd r)) | e => (err_of e, hr) end)
+  | HGen rid ord => exe r <- gen_key rid ord; Done (match r with Ok _ => Ok 0 | e => e end, hr)
+  | HDestroyCur rid => exe r <- destroy_current rid; Done (match r with Ok _ => Ok 0 | e => e end, hr)
+  end.
+
 (** a handle: its key ring object, the operations still to run, the program of the
     operation in progress, the results so far (newest first) *)
 Record handle := mk_handle {
-  hd_ring : hring;
-  hd_todo : list wop;
-  hd_cur : option (prog (res Z * hring));
+  hd_ring : option hring;
+  hd_todo : list hop;
+  hd_cur : option (prog (res Z * option hring));
   hd_out : list (res Z)
 }.
 
@@ -528,7 +552,7 @@ Fixpoint settle (fuel : nat) (h : handle) : handle :=
       | None =>
           match hd_todo h with
           | [] => h
-          | o :: rest => settle fuel' (mk_handle (hd_ring h) rest (Some (ring_op (hd_ring h) o)) (hd_out h))
+          | o :: rest => settle fuel' (mk_handle (hd_ring h) rest (Some (hop_prog (hd_ring h) o)) (hd_out h))
           end
       end
   end.
@@ -595,6 +619,22 @@ Definition run_op_serial (st : storage) (hr : hring) (o : wop) : storage * hring
   | Ret (r, hr') st' _ => (st', hr', r)
   | Crash st' => (st', hr, Panic)
   end.
+
+(** serial reference for whole handles: handle [i] runs ONE WHOLE LOCKED SECTION without anybody
+    else stepping (from a state where the lock is free until it is free again). A ring-level
+    operation and OpenKeyRingRW are one section each; generate (open, AddKey, SetCurrent) and
+    destroy-current are sequences of such sections - they are separate updates in acra. *)
+Fixpoint run_section (fuel : nat) (g : gstate) (i : nat) : option gstate :=
+  match fuel with
+  | O => None
+  | S f =>
+      match gstep g i with
+      | None => None
+      | Some g' => match g_lock g' with LFree => Some g' | _ => run_section f g' i end
+      end
+  end.
+Definition sstep (g : gstate) (i : nat) : option gstate :=
+  match g_lock g with LFree => run_section 16 g i | _ => None end.
 
 (** * v1 (keystore/filesystem/server_keystore.go, fixed) *)
 
